@@ -415,6 +415,25 @@ def run(R, out, tier="quick"):
                    ("fs_two_codes", (lam, R.mkcode(lam, co_name=nested.co_filename), empty, nested.co_filename))]
     shared_tags = set(t_ for t_, _ in shared_vals)
     vals += shared_vals
+    # containers that contain themselves (expressible from 3.4 on, through FLAG_REF on the mutable container): only this
+    # interpreter's own writer produces them here (the assembler would not terminate on a cyclic value)
+    cyclic_tags = set()
+    if HAS_REF:
+        c1 = [1]
+        c1.append(c1)
+        c2 = {}
+        c2["self"] = c2
+        c3 = []
+        c3.append((c3, 1))
+        c4 = [[], {}]
+        c4[0].append(c4)
+        c4[1]["up"] = c4[0]
+        c5 = {"l": []}
+        c5["l"].append(c5)
+        for tg, cv in (("cyc_list", c1), ("cyc_dict", c2), ("cyc_list_via_tuple", c3), ("cyc_two_levels", c4), ("cyc_dict_list", c5),
+                       ("cyc_twice", (c1, c1, [c1]))):
+            vals.append((tg, cv))
+            cyclic_tags.add(tg)
     stats = {"values": len(vals), "real_writer": 0, "assembled": 0, "rejected_by_reader": 0, "capped": 0}
     seen = set()
 
@@ -436,11 +455,15 @@ def run(R, out, tier="quick"):
     for tag, v in vals:
         code = R.mkcode(template, co_consts=(v,))
         for mv in versions:
+            if tag in cyclic_tags and mv < 3:
+                continue    # without references the writer walks a cyclic value until its depth limit (exponential for two branches)
             try:
                 emit(tag, marshal.dumps(code, mv), "dumps-v%d" % mv, mv < 2)
                 stats["real_writer"] += 1
             except ValueError:
                 pass
+        if tag in cyclic_tags:
+            continue
         # assembler: canonical + deviations
         budget = [400 if not thorough else 3000]
 
